@@ -10,53 +10,22 @@ import (
 func init() {
 	core.Register(&core.Driver{Prop: "DBG", Serial: true, Run: func(c *core.Ctx) {
 		w := os.Stderr
-		dir := NewDir("dbg")
-		db, f := OpenDB(dir+"/d", 128)
-		fmt.Fprintln(w, "open", f)
-		fmt.Fprintln(w, db.Auto("CREATE TABLE t(k INT, v VARCHAR(32));"))
-		fmt.Fprintln(w, db.Auto("INSERT INTO t(k,v) VALUES (1,'a'),(2,'b'),(3,'c');"))
-		fmt.Fprintln(w, db.Auto("INSERT INTO t(k,v) VALUES (7,'q');"))
-		fmt.Fprintln(w, db.Auto("SELECT k,v FROM t WHERE k = 2;"))
-		fmt.Fprintln(w, db.Auto("SELECT k,v FROM t WHERE k > -1;"))
-		fmt.Fprintln(w, db.Auto("SELECT v,k FROM t WHERE k >= 2 OR k >= 2;"))
-		fmt.Fprintln(w, db.Auto("UPDATE t SET v = 'zz' WHERE k = 3;"))
-		fmt.Fprintln(w, db.Auto("DELETE FROM t WHERE k = 1;"))
-		fmt.Fprintln(w, db.Auto("SELECT * FROM t;"))
-		{
-			tx := db.Begin()
-			tb := db.Cat().GetTableByName("t")
-			it := tb.Table().Iterator(tx.T)
-			n := 0
-			for tp := it.Current(); !it.End(); tp = it.Next() {
-				n++
-				fmt.Fprintln(w, "tuple", tp.GetRID(), tp.Size())
+		wd := NewWorld(c14Cfg(c14Params{Seed: "empty", MemKB: 128, Depth: 2}))
+		for _, tm := range wd.db.Cat().GetAllTables() {
+			fmt.Fprintf(w, "table %s first page %d", *tm.GetTableName(), tm.Table().GetFirstPageID())
+			for i, ix := range tm.Indexes() {
+				if ix != nil {
+					fmt.Fprintf(w, " idx%d %T", i, ix)
+				}
 			}
-			fmt.Fprintln(w, "heap rows", n)
-			tx.Commit()
+			fmt.Fprintln(w)
 		}
-		e, v := db.SDB.ExecuteSQLRetValues("SELECT * FROM t;")
-		fmt.Fprintln(w, "direct", e, len(v))
-		for _, tb := range db.Cat().GetAllTables() {
-			fmt.Fprintln(w, "table", *tb.GetTableName(), tb.OID(), tb.Table().GetFirstPageID())
+		fmt.Fprintln(w, pinVector(wd))
+		for i := 0; i < 3; i++ {
+			wd.db.Auto(fmt.Sprintf("INSERT INTO t(k, v) VALUES (%d, 'seven');", 7+i))
+			fmt.Fprintln(w, pinVector(wd))
 		}
-		fmt.Fprintln(w, "shutdown", db.Shutdown())
-		db, f = OpenDB(dir+"/d", 128)
-		fmt.Fprintln(w, "reopen", f)
-		fmt.Fprintln(w, db.Auto("SELECT * FROM t WHERE k = 2;"))
-		fmt.Fprintln(w, db.Auto("SELECT * FROM t WHERE k = 2 OR k = 2;"))
-		db.Kill()
-		for _, kb := range []int{4, 8, 12, 16, 20, 24, 32, 40} {
-			dir := NewDir("dbg")
-			db, f := OpenDB(dir+"/d", kb)
-			if f != nil {
-				fmt.Fprintln(w, kb, "open fail", f)
-				continue
-			}
-			r := db.Auto("CREATE TABLE t(k INT, v VARCHAR(32));")
-			r2 := db.Auto("INSERT INTO t(k,v) VALUES (1,'a'),(2,'b'),(3,'c');")
-			r3 := db.Auto("SELECT k,v FROM t WHERE k = 2;")
-			fmt.Fprintln(w, kb, r.Fail, r2.Fail, r3)
-			db.Kill()
-		}
+		wd.db.Auto("INSERT INTO u(k2, w) VALUES (1, 1);")
+		fmt.Fprintln(w, pinVector(wd))
 	}})
 }
